@@ -27,7 +27,7 @@ def run(ctx, rep):
         rep.anchor_lost('R01.c2', 'RetainedMessage::new in both loops of append_messages')
     for c in news:
         f = canon(b.pexpr_operand(c.args[0]))
-        ok = f == '(phi{($Partition.current_offset + 1) | 0} + phi{($u32 + 1) | 0})'
+        ok = f == '(phi{($u32 + 1) | 0} + phi{(1 + self.current_offset) | 0})'
         rep.ob('R01.c2', sf.APPEND, 'message offset @%s' % ('dedup' if any(x.name.endswith('try_insert') for x in b.calls if b.dominates(x.bb, c.bb)) else 'plain'), ok, c.where(),
                'offset = %s' % f if ok else 'message offset has the form `%s`, expected base + running count' % f)
     for fn, label in ((sf.APPEND, 'roll-over'), ('server::channels::commands::maintain_messages::delete_segments', 'retention')):
